@@ -34,8 +34,16 @@ PROP = Property(
         "certificate the common verifier accepted as a chain root (two loops with inductive invariants; partial correctness)",
         ["mithril-client MithrilCertificateVerifier::verify_chain", "mithril-client MithrilCertificateVerifier::verify_with_cache_enabled",
          "mithril-client MithrilCertificateVerifier::verify_without_cache", "mithril-client MithrilCertificateVerifier::fetch_cached_previous_hash (not(unstable))",
-         "mithril-client CertificateToVerify::hash"])],
+         "mithril-client CertificateToVerify::hash"]),
+        VerusUnit(
+        "client_verify_chain_cache", "verus/C03/client_verify_chain_cache.tmpl.rs",
+        "extracted real text of mithril-client's chain walk AS COMPILED WITH the cargo feature `unstable` (certificate-verifier cache; enabled by the workspace build and mithril-client-cli): "
+        "verify_with_cache_enabled Ok ==> the certificate handed in is vouched for: the common verifier accepts it now, or its hash is in the cache AND (when its content was downloaded and used to judge the "
+        "certificate chained to it) that content hashes to this very hash; a ToDownload answer only comes from the cache; verify_without_cache Ok ==> verified; fetch_cached_previous_hash == the cache's answer",
+        ["mithril-client MithrilCertificateVerifier::verify_with_cache_enabled (unstable)", "mithril-client MithrilCertificateVerifier::verify_without_cache (unstable)",
+         "mithril-client MithrilCertificateVerifier::fetch_cached_previous_hash (unstable)"])],
     replays=[dict(crate="mithril-common", file=CV, module="replays/c03_verifier.rs"),
+             dict(crate="mithril-client", file=CC, module="replays/c03_client_cache.rs", features="rustls,unstable"),
              dict(crate="mithril-client", file=CC, module="replays/c03_client.rs", features="rustls")],
     assumptions=[
         "SHA-256 / hex hashing of certificates, protocol messages and parameters: uninterpreted functions of the value (collision resistance assumed, not proved)",
@@ -47,11 +55,13 @@ PROP = Property(
         "verify_multi_signature and fetch_previous_certificate likewise (logging / async retriever)",
         "extraction rewrites (complete list in the template): StdResult<T> -> Result<T, CertificateVerifierError>; Err(anyhow!(E)) -> Err(E); debug!(..) statements and .with_context(..) removed; async fn -> fn and .await removed; closure headers given types and ensures clauses; x.as_bytes() -> string_as_bytes(&x)",
         "'reaches genesis in finitely many steps' follows from the per-link contract plus acyclicity (hash covers previous_hash under SHA-256): assumed, not proved; the default verify_certificate_chain loop is verified for partial correctness only (Ok ==> the walk ended at a certificate that verify_certificate accepted as genesis; `while let` desugared to loop/break; termination explicitly not claimed: #[verifier::exec_allows_no_decreases_clause])",
-        "mithril-client unit: the optional certificate-verifier cache (cargo feature `unstable`, off by default) is stripped by the extraction - with it a certificate whose hash is in the "
-        "local cache is not re-verified (by design; entries are stored only after a successful verification) - that path is not under contract; feedback events and trace! logging are removed; "
+        "mithril-client units: client_verify_chain is the default build (items under the cargo feature `unstable` stripped), client_verify_chain_cache is the build WITH `unstable` (cfg(not(unstable)) items dropped): "
+        "there a certificate whose hash is in the local cache is not re-verified (by design; entries are stored only after a successful verification); the cache itself (an async trait object) is a callee contract "
+        "(get_previous_hash answers from an uninterpreted map hash -> previous hash), that its entries stem from successful verifications is the store call site in verify_without_cache (after verify_certificate succeeded) "
+        "plus trust in the local cache's integrity and expiry; the verify_chain loops are proved in the default unit only; feedback events and trace! logging are removed; let-chains rewritten to plain conditions; "
         "the common verifier behind `internal_verifier: Arc<dyn CertificateVerifier>` is the callee contract proved by unit verifier; TryFrom<CertificateMessage> for Certificate is an uninterpreted relation",
         "the future_snark feature (off in default builds) is not covered; AggregateSignatureType::certifies_full_certificate_chain is false for the concatenation type",
     ],
     explanation="The acceptance rule is verified modularly by Verus on the function text extracted from the working tree: each guard against its clause of the statement, each composite against the conjunction of its callees' contracts, so a dropped or weakened conjunct fails a named obligation.",
-    not_decided=["mithril-client's verifier cache (feature `unstable`) and HTTP retrieval", "termination / reaching genesis (needs hash acyclicity)"],
+    not_decided=["integrity / expiry of the local verifier cache store, HTTP retrieval", "termination / reaching genesis (needs hash acyclicity)"],
 )
